@@ -1,7 +1,174 @@
-(* C07 - property theorems (under construction: replaced by the full set once Sync_Proofs.v is complete) *)
-From Coq Require Import ZArith QArith List.
-From SV Require Import SyncModel.
+(* C07 - The floating-point LP and the rational LP never drift apart.
+ Property theorems only; each is closed by [exact] of a lemma of Sync_Proofs.v.
 
-Theorem C07_init_has_no_rational_lp : ql init = None /\ mode init = OnlyReal.
-Proof. split; reflexivity. Qed.
-Print Assumptions C07_init_has_no_rational_lp.
+ Vocabulary (SyncModel.v / Sync_Proofs.v):
+   state, op, step, run     the solver object as far as C07 observes it (real LP with exact dyadic entries, optional
+                            rational LP over Q, _rowTypes/_colTypes, SYNCMODE, INFTY, OBJSENSE, EPSILON_ZERO) and the
+                            calls: OR (real interface), OQ (rational interface, with the GMP entry points where they
+                            differ), SyncReal, SyncRat, ExactSolveSync (the copy optimize() makes before an exact solve
+                            in SYNCMODE_ONLYREAL), SetMode, SetInfty, SetSense, SetOffset
+   rnd : rkind -> Q -> dy   the oracle for Rational -> double (RConv: conversion operator, RGetD: mpq_get_d)
+   adj d q                  d is a double and no double lies beyond d in the direction of q up to q itself:
+                            d is q, or the largest double below q, or the smallest double above q
+   valid_op / valid_run     the call is inside the documented domain in the state in which it is made
+   InSync s                 the rational LP exists; the real LP has the same dimensions and sense and each of its
+                            entries (sides, bounds, objective, matrix, offset) is adjacent to the rational entry; the
+                            type arrays are the classification of the rational bounds with threshold INFTY
+   Inv s                    every entry of the real LP is a double, sides/bounds vectors have matching lengths, and a
+                            rational LP exists outside SYNCMODE_ONLYREAL
+   benign s o               the call avoids the four mechanisms by which the code itself breaks the relation
+                            (see the refutation theorems): _rangeTypeReal used with INFTY < |v| < 1e100, a nonzero
+                            vector entry beyond the current dimension whose double image is 0, changeElement with a
+                            value at the epsilon threshold, the GMP addCol entry points when the sense of the LPs
+                            differs from the OBJSENSE parameter
+   spec_step / spec_run     what a call means for a rational LP alone: every argument stored verbatim, a double
+                            argument as its exact value (no mode, no real LP, no rounding, no epsilon, no types) *)
+From Coq Require Import ZArith QArith List Bool.
+From SV Require Import SyncModel Sync_Proofs.
+Import ListNotations.
+
+(* the only assumption about the conversions, made by every theorem that mentions [oracle_ok]: they return a double
+ adjacent to the rational *)
+Definition oracle_ok (rnd : rkind -> Q -> dy) : Prop := forall k q, adj (rnd k q) q.
+
+(* ---------------------------------------------------------------------------------------------------------
+   every reachable state is well formed (all modes, every call of the domain) *)
+Theorem C07_invariant_step : forall rnd, oracle_ok rnd -> forall s o, Inv s -> valid_op rnd s o = true -> Inv (step rnd s o).
+Proof. exact step_Inv. Qed.
+Print Assumptions C07_invariant_step.
+
+(* ---------------------------------------------------------------------------------------------------------
+   auto_preserves_InSync: every benign call made in SYNCMODE_AUTO, through either interface, keeps the two LPs in
+   sync (partial: "benign"; the excluded calls do break the relation, see the refutations) *)
+Theorem C07_auto_preserves_InSync_partial :
+  forall rnd, oracle_ok rnd -> forall s o, mode s = Auto -> InSync s -> valid_op rnd s o = true -> benign rnd s o -> o <> SetMode OnlyReal ->
+    InSync (step rnd s o).
+Proof. exact auto_step_preserves. Qed.
+Print Assumptions C07_auto_preserves_InSync_partial.
+
+(* ... hence after any history of such calls *)
+Theorem C07_auto_history_InSync_partial :
+  forall rnd, oracle_ok rnd -> forall ops s, mode s = Auto -> InSync s -> hist_ok rnd s ops ->
+    InSync (run rnd s ops) /\ mode (run rnd s ops) = Auto.
+Proof. exact auto_history. Qed.
+Print Assumptions C07_auto_history_InSync_partial.
+
+(* ... and the rational LP is exactly the denotation of the history: what was entered, verbatim (partial:
+   changeElement calls must store their value, i.e. not fall under the epsilon / underflow rule) *)
+Theorem C07_auto_rational_holds_entered_numbers_partial :
+  forall rnd, oracle_ok rnd -> forall ops s q, mode s = Auto -> InSync s -> ql s = Some q -> hist_ok rnd s ops -> hist_kept rnd s ops ->
+    ql (run rnd s ops) = Some (spec_run q ops).
+Proof. exact exact_history. Qed.
+Print Assumptions C07_auto_rational_holds_entered_numbers_partial.
+
+(* switching from ONLYREAL to AUTO starts such a history: the rational LP is the exact image of the real LP *)
+Theorem C07_onlyreal_to_auto_exact_copy :
+  forall rnd s, mode s = OnlyReal -> Inv s ->
+    ql (step rnd s (SetMode Auto)) = Some (lp_map d2q (rl s)) /\ rl (step rnd s (SetMode Auto)) = rl s /\
+    InSync (step rnd s (SetMode Auto)) /\ mode (step rnd s (SetMode Auto)) = Auto.
+Proof. exact onlyreal_to_auto_copy. Qed.
+Print Assumptions C07_onlyreal_to_auto_exact_copy.
+
+(* ---------------------------------------------------------------------------------------------------------
+   manual_sync_establishes: in SYNCMODE_MANUAL, syncLPRational makes the rational LP the exact image of the real
+   LP (whatever happened before) and recomputes the types; syncLPReal makes the real LP the rounded image of the
+   rational LP (partial: the type arrays are not recomputed, so they must already match) *)
+Theorem C07_manual_syncLPRational_establishes :
+  forall rnd s, mode s = Manual -> Inv s ->
+    ql (step rnd s SyncRat) = Some (lp_map d2q (rl s)) /\ rl (step rnd s SyncRat) = rl s /\ InSync (step rnd s SyncRat).
+Proof. exact manual_syncLPRational. Qed.
+Print Assumptions C07_manual_syncLPRational_establishes.
+
+Theorem C07_manual_syncLPReal_establishes_partial :
+  forall rnd, oracle_ok rnd -> forall s q, mode s = Manual -> ql s = Some q -> types_ok s q -> WF2 q ->
+    rl (step rnd s SyncReal) = lp_map (rnd RConv) q /\ ql (step rnd s SyncReal) = Some q /\ InSync (step rnd s SyncReal).
+Proof. exact manual_syncLPReal. Qed.
+Print Assumptions C07_manual_syncLPReal_establishes_partial.
+
+(* ---------------------------------------------------------------------------------------------------------
+   onlyreal_sync_exact_copy: what an exact solve does first in SYNCMODE_ONLYREAL *)
+Theorem C07_onlyreal_sync_exact_copy :
+  forall rnd s, mode s = OnlyReal -> Inv s ->
+    ql (step rnd s ExactSolveSync) = Some (lp_map d2q (rl s)) /\ rl (step rnd s ExactSolveSync) = rl s /\
+    InSync (step rnd s ExactSolveSync).
+Proof. exact onlyreal_exact_solve_copy. Qed.
+Print Assumptions C07_onlyreal_sync_exact_copy.
+
+(* ---------------------------------------------------------------------------------------------------------
+   the classification: every call of the rational interface, in SYNCMODE_AUTO and SYNCMODE_MANUAL, keeps the type
+   arrays equal to the classification of the rational bounds; the real interface does not touch them outside AUTO *)
+Theorem C07_types_match_after_rational_call :
+  forall rnd s qo, mode s <> OnlyReal -> Inv s -> TypesOK s -> valid_op rnd s (OQ qo) = true -> TypesOK (step rnd s (OQ qo)).
+Proof. exact types_step_rational. Qed.
+Print Assumptions C07_types_match_after_rational_call.
+
+Theorem C07_types_untouched_by_real_call_outside_auto :
+  forall rnd s ro, mode s <> Auto -> TypesOK s -> TypesOK (step rnd s (OR ro)).
+Proof. exact types_step_real_not_auto. Qed.
+Print Assumptions C07_types_untouched_by_real_call_outside_auto.
+
+(* ---------------------------------------------------------------------------------------------------------
+   refuted for every oracle: calls that are valid and still break the statement of the property *)
+(* setRealParam(INFTY,1e20); changeRangeReal(0,-1e30,1): _rowTypes says BOXED, the rational bounds say UPPER *)
+Theorem C07_types_match_with_small_infty_refuted :
+  forall rnd, exists h, valid_run rnd init h = true /\ mode (run rnd init h) = Auto /\ ~ TypesOK (run rnd init h).
+Proof. exact (fun rnd => ex_intro _ hist_gap (gap_refutes rnd)). Qed.
+Print Assumptions C07_types_match_with_small_infty_refuted.
+
+(* AUTO, add a row, ONLYREAL, MANUAL, addRowRational: the type arrays of the freed rational LP are still there *)
+Theorem C07_types_match_after_onlyreal_to_manual_refuted :
+  forall rnd, exists h, valid_run rnd init h = true /\ mode (run rnd init h) = Manual /\ ~ TypesOK (run rnd init h).
+Proof. exact (fun rnd => ex_intro _ hist_stale (stale_refutes rnd)). Qed.
+Print Assumptions C07_types_match_after_onlyreal_to_manual_refuted.
+
+(* MANUAL, addColReal, AUTO: setIntParam(SYNCMODE, AUTO) does not synchronise when it comes from MANUAL *)
+Theorem C07_in_sync_on_entering_auto_from_manual_refuted :
+  forall rnd, exists h, valid_run rnd init h = true /\ mode (run rnd init h) = Auto /\ ~ InSync (run rnd init h).
+Proof. exact (fun rnd => ex_intro _ hist_manual_auto (manual_auto_refutes rnd)). Qed.
+Print Assumptions C07_in_sync_on_entering_auto_from_manual_refuted.
+
+(* changeElementRational(0,0,1e-20) / changeElementReal(0,0,1e-20): the entry is deleted from the rational LP *)
+Theorem C07_rational_holds_entered_element_refuted :
+  forall rnd, valid_run rnd init hist_elem_eps = true /\
+    exists q, ql (run rnd init hist_elem_eps) = Some q /\
+              ~ (nth 0 (nth 0 (mat q) []) qzero == 1 # 100000000000000000000)%Q.
+Proof. exact elem_eps_refutes. Qed.
+Print Assumptions C07_rational_holds_entered_element_refuted.
+
+Theorem C07_rational_holds_entered_real_element_refuted :
+  forall rnd, valid_run rnd init hist_elem_eps_real = true /\
+    exists q, ql (run rnd init hist_elem_eps_real) = Some q /\ ~ (nth 0 (nth 0 (mat q) []) qzero == d2q d1em20)%Q.
+Proof. exact elem_eps_real_refutes. Qed.
+Print Assumptions C07_rational_holds_entered_real_element_refuted.
+
+(* for the default INFTY the classifier of the real interface is the classifier of the rational bounds *)
+Theorem C07_real_classifier_agrees_for_default_infty : forall ro, rgap_ok (d2q dinf) ro.
+Proof. exact rgap_ok_default. Qed.
+Print Assumptions C07_real_classifier_agrees_for_default_infty.
+
+(* ---------------------------------------------------------------------------------------------------------
+ refuted for the conversions as the linked libraries perform them (rnd_impl: nearest-even for the conversion
+ operator, truncation for mpq_get_d; compared with the libraries on every run of the check) *)
+(* changeElementRational(0,0,const mpq_t pointer to 1e-20): stays in the rational LP, deleted from the real LP *)
+Theorem C07_auto_gmp_element_in_sync_refuted :
+exists h, valid_run rnd_impl init h = true /\ mode (run rnd_impl init h) = Auto /\ ~ InSync (run rnd_impl init h).
+Proof. exact (ex_intro _ hist_elem_gmp elem_gmp_refutes). Qed.
+Print Assumptions C07_auto_gmp_element_in_sync_refuted.
+
+(* addRowRational with entries {0: 1/3, 3: 1e-400} on a one-column LP: 4 rational columns, 1 real column *)
+Theorem C07_auto_dimensions_agree_refuted :
+exists h, valid_run rnd_impl init h = true /\ mode (run rnd_impl init h) = Auto /\ ~ InSync (run rnd_impl init h).
+Proof. exact (ex_intro _ hist_underflow underflow_refutes). Qed.
+Print Assumptions C07_auto_dimensions_agree_refuted.
+
+(* addRowRational(const mpq_t pointers) with an explicit zero in column 4 of a one-column LP *)
+Theorem C07_auto_gmp_zero_entry_dimensions_refuted :
+exists h, valid_run rnd_impl init h = true /\ ~ InSync (run rnd_impl init h).
+Proof. exact (ex_intro _ hist_gmp_zero gmp_zero_refutes). Qed.
+Print Assumptions C07_auto_gmp_zero_entry_dimensions_refuted.
+
+(* OBJSENSE_MINIMIZE, clearLPReal, addColRational(const mpq_t pointers, objective 5): real objective -5 *)
+Theorem C07_auto_gmp_addcol_objective_refuted :
+exists h, valid_run rnd_impl init h = true /\ ~ InSync (run rnd_impl init h).
+Proof. exact (ex_intro _ hist_gmp_sense gmp_sense_refutes). Qed.
+Print Assumptions C07_auto_gmp_addcol_objective_refuted.
